@@ -452,10 +452,55 @@ func (fr *Frame) callFunc(fn *ssa.Function, args []Val, st *State, g *Term, site
 	if v, ng, ok := fr.libModel(fn, full, args, st, g, site, resType); ok {
 		return v, ng
 	}
+	if c.lockCheck && fn.Pkg != nil {
+		if lp := c.prog.Contracts[funcKey(fn)+"#lockpre"]; lp != nil {
+			fr.obligeLockPre(lp, fn, args, st, g, site)
+		}
+	}
 	// 2. contract
 	if ct := c.prog.ContractFor(fn); ct != nil && !ct.Inline {
 		var recvT types.Type
-		return fr.applyContract(ct, fn, full, args, fn.Signature, recvT, st, g, site, resType)
+		// interior pointers (&x.f, &s[i]) to non-struct values handed to a contract: the callee sees a cell of its own
+		// (a negative address: never nil, never one of the allocated references) holding the current value of the
+		// field; what the callee leaves in the cell is written back to the field afterwards
+		type backRef struct {
+			loc, cell *Loc
+		}
+		var backs []backRef
+		args = append([]Val(nil), args...)
+		var ptys []types.Type
+		if fn.Signature.Recv() != nil {
+			ptys = append(ptys, fn.Signature.Recv().Type())
+		}
+		for i := 0; i < fn.Signature.Params().Len(); i++ {
+			ptys = append(ptys, fn.Signature.Params().At(i).Type())
+		}
+		for i := range args {
+			if args[i].T != nil || args[i].Loc == nil || i >= len(ptys) {
+				continue
+			}
+			pt, ok := ptys[i].Underlying().(*types.Pointer)
+			if !ok {
+				continue
+			}
+			if _, isStruct := pt.Elem().Underlying().(*types.Struct); isStruct && !isOpaqueStruct(pt.Elem()) {
+				continue
+			}
+			if _, ok := c.locTerm(args[i].Loc); ok {
+				continue
+			}
+			addr := c.fresh("interior", SInt)
+			c.assumeG(g, mk(SBool, "(< "+addr.S+" 0)"))
+			cell := c.derefLoc(Val{T: addr}, ptys[i])
+			c.store(st, cell, c.load(st, args[i].Loc))
+			backs = append(backs, backRef{args[i].Loc, cell})
+			args[i] = Val{T: addr}
+		}
+		v, ng := fr.applyContract(ct, fn, full, args, fn.Signature, recvT, st, g, site, resType)
+		for _, b := range backs {
+			c.store(st, b.loc, c.load(st, b.cell))
+		}
+		return v, ng
 	}
 	// 3. inline
 	if fn.Blocks != nil && fr.depth < maxInlineDepth && !fr.onStack(fn) {
@@ -929,6 +974,12 @@ func (c *Ctx) modTargets(e *Env, x Expr) (names []string, points [][]*Term) {
 
 func (fr *Frame) builtin(b *ssa.Builtin, cc *ssa.CallCommon, args []Val, st *State, g *Term, resType types.Type) (Val, *Term) {
 	c := fr.c
+	switch b.Name() {
+	case "len", "delete":
+		if len(cc.Args) > 0 {
+			fr.guardUse(cc.Args[0], b.Name() == "delete", st, g, cc.Pos(), b.Name())
+		}
+	}
 	switch b.Name() {
 	case "len":
 		x := args[0]
